@@ -1062,7 +1062,16 @@ class Mailbox:
         if isinstance(notifications, str):
             notifications = [notifications]
 
-        for c in self.clients.values():
+        # NOTE: We loop over a copy: we await (a push to a slow client can take
+        #       a while) and clients select and unselect this mailbox
+        #       meanwhile.
+        #
+        for c in list(self.clients.values()):
+            # A client that left while we were busy with the others.
+            #
+            if self.clients.get(c.name) is not c:
+                continue
+
             # Skip over the client we are not going to send notifications to.
             #
             if c == dont_notify:
@@ -1385,7 +1394,9 @@ class Mailbox:
         notifications = []
         notifications.append(f"* {num_msgs} EXISTS\r\n")
         notifications.append(f"* {num_recent} RECENT\r\n")
-        for c in self.clients.values():
+        for c in list(self.clients.values()):
+            if self.clients.get(c.name) is not c:
+                continue
             if c.pending_expunges():
                 c.pending_notifications.extend(notifications)
             else:
